@@ -23,6 +23,8 @@ def make_table(rng, nmodels=None):
             icode = rng.choice([None, None, None, "A", "B"])
             if icode is None:
                 num += rng.choice([1, 1, 2])
+            while any(k[:3] == (ch, num, icode) for k in skeleton):
+                num += 1  # residue identities are unique within a chain (a file that repeats one is outside the property)
             het = rng.random() < .12
             resname = "HOH" if het else rng.choice(["G", "A", "C", "U", "DG", "PSU"])
             names = ["O"] if het else rng.sample(NT_ATOMS, rng.randint(3, 9))
